@@ -166,6 +166,8 @@ impl LeafUpdater {
         // leaf of the bulk split first rather than pushing the ops onwards. probably irrelevant
         // in practice; bulk splits are rare.
         if self.gauge.body_size() > LEAF_BULK_SPLIT_THRESHOLD {
+            #[cfg(nomt_verif)]
+            crate::verif::probe("beatree.leaf_bulk_split");
             self.try_build_leaves(new_leaves, LEAF_BULK_SPLIT_TARGET)?
         }
 
@@ -173,6 +175,8 @@ impl LeafUpdater {
         // respecting the half-full requirement will always be created.
         // There are cases where this will create two leaves.
         if self.gauge.body_size() > LEAF_NODE_BODY_SIZE {
+            #[cfg(nomt_verif)]
+            crate::verif::probe("beatree.leaf_split");
             self.try_build_leaves(new_leaves, self.gauge.body_size() / 2)?
         }
 
@@ -198,6 +202,8 @@ impl LeafUpdater {
                 self.separator_override = Some(self.base.as_ref().unwrap().separator);
             }
 
+            #[cfg(nomt_verif)]
+            crate::verif::probe("beatree.leaf_merge");
             self.prepare_merge_ops();
 
             // UNWRAP: protected above.
